@@ -1,7 +1,7 @@
 """C04 Variable-base scalar multiplication returns s*P for every scalar and point."""
 import os
 import z3
-from .common import Check, load_prog, load_globals, new_machine, tm, X, MOD, N_ORDER, P_FIELD, sym_limbs, cat_limbs, cat_bytes
+from .common import Check, load_prog, load_globals, new_machine, tm, X, MOD, N_ORDER, P_FIELD, sym_limbs, cat_limbs, cat_bytes, point_get
 from . import models, groupalg as GA
 
 ROOT = MOD + '.'
@@ -399,6 +399,133 @@ def build(chk, only=''):
                           '16 ladder iterations unrolled with an unwinding assertion; P an arbitrary group element (identity included)')
         chk.notes.append('composition: ladder/* gives v = (s1*|k1| + s2*|k2|*lambda) P restricted to the low 16 bytes; bound/* shows the high 16 bytes are zero; '
                          'split/dataflow + const/* give k1 + k2*lambda = s (mod n); hence v = s*P')
+
+    # ---------------------------------------------------------------- 7. end to end at coordinate level on a toy curve
+    # The abstract-group runs above decide the window / sign / table logic for every scalar, but a Point has no coordinates there: code that
+    # looks at x, y, z inside the multiplication routines or the table builder (a shortcut on Z, an inline normalisation, a hand-written
+    # copy) has no image.  Here ScalarMult / scalarMultVartimeGLV run end to end on F_43 coordinates -- real point formulas, table
+    # construction, lookups, sign handling, mulBeta with the toy image of beta -- with the split cut at its (separately decided) contract:
+    # splitGLV returns the two halves the harness chooses, each +-(a 128-bit magnitude).
+    def t_coord(fn, mode, variant, seed=0):
+        from . import toy as T, toycoord as TC
+        import random
+        toy = T.get_toy(43, 31)
+        WT = T.W
+
+        def task(sub):
+            def h(ctx):
+                m, alg = TC.machine(prog, ctx, gl, toy)
+                lam_toy = TC.install_endomorphism(m, toy)
+                m.unwind = 40
+                rng = random.Random(seed)
+                halves = []
+                kP, lP = variant['kP'], variant['lamP']
+                if mode == 'short':
+                    # short halves: one half is a symbolic nibble (the last window) with a fixed sign, the other half is zero
+                    mags = [TC.windowed_scalar('m%d' % i, {0} if i == variant['half'] else set(), 4, rng, nwin=64, tail=0, zero_frac=1.0) for i in range(2)]
+                else:
+                    mags = [TC.windowed_scalar('m%d' % i, set(variant['sym'][i]), 4, rng, nwin=64, tail=1, zero_frac=0.3,
+                                               fix=lambda j, v: 0 if j >= 32 else v) for i in range(2)]
+                negs = variant['negs'] if 'negs' in variant else [tm.boolvar('neg1'), tm.boolvar('neg2')]
+                for i in range(2):
+                    if negs[i] is True or variant.get('split_windows'):
+                        # n - magnitude feeds 256-bit compare / subtract results into every lookup index and select: the window values are
+                        # case-split by the path solver (one path per value) instead of being carried symbolically through that arithmetic
+                        wins = [ctx.concretize(w, 4, 'window') if isinstance(w, tm.T) else w for w in mags[i][1]]
+                        mags[i] = (TC.limbs_of_windows(wins, 4), wins)
+
+                def c_split(mm, a):
+                    out = []
+                    for i in range(2):
+                        mag = tm.lift(cat_limbs(mags[i][0]), 256)
+                        # a negative half is n - magnitude (magnitude 0 has no negative form)
+                        ctx.assume(tm.implies(negs[i], tm.bnot(tm.eq(mag, 0, 256))))
+                        val = tm.ite(negs[i], tm.bv('sub', N, mag, 256), mag, 256)
+                        out.append(TC.new_scalar(mm, [tm.extract(val, 64 * j + 63, 64 * j) if isinstance(val, tm.T) else (val >> (64 * j)) & (2 ** 64 - 1) for j in range(4)]))
+                    halves.append(out)
+                    return tuple(out)
+                m.contracts[SC + 'splitGLV'] = c_split
+                p = X.Ptr(TC.point(m, alg, toy, 'P', kP, lP), ())
+                if variant.get('alias'):
+                    v = p
+                elif variant.get('prior') == 'fresh':
+                    v = X.Ptr(m.new_obj(prog.tid_by_str[MOD + '.Point'], label='v (zero value)'), ())
+                else:
+                    k0, l0 = tm.var('k0', WT), tm.var('lam0', WT)
+                    ctx.assume(tm.ult(k0, toy.n, WT))
+                    ctx.assume(tm.band(tm.bnot(tm.eq(l0, 0, WT)), tm.ult(l0, toy.p, WT)))
+                    v = X.Ptr(TC.point(m, alg, toy, 'v', k0, l0, extra='any'), ())
+                s = TC.new_scalar(m, sym_limbs('s'))      # the scalar itself is only handed to splitGLV
+                r = m.call(PT + fn, [v, s, p])
+                sub.note_machine(m)
+                ctx.check(len(halves) == 1, 'scalar-split-exactly-once')
+                e = []
+                for i in range(2):
+                    mi = TC.window_sum_mod(toy, mags[i][1], 4)
+                    if isinstance(negs[i], tm.T):
+                        e.append(tm.ite(negs[i], toy.negn(mi), mi, WT))
+                    else:
+                        e.append(toy.negn(mi) if negs[i] else mi)
+                coeff = toy.addn(e[0], toy.muln(e[1], lam_toy))
+                want = toy.muln(coeff, kP)
+                valid, k = TC.index_of(alg, toy, v.obj)
+                ctx.check(r.same(v), 'returns-receiver')
+                ctx.check(tm.eq(point_get(prog, v.obj, 'isValid'), True, 0), 'result-flagged-valid')
+                ctx.check(valid, 'bv:result-is-a-valid-projective-point')
+                ctx.check(tm.eq(k, want, WT), "bv:result=(+-m1 +- m2*lambda)*P")
+                if not variant.get('alias'):
+                    _, kp_after = TC.index_of(alg, toy, p.obj)
+                    ctx.check(tm.eq(kp_after, kP, WT), 'bv:operand-unchanged')
+                if mode == 'short':
+                    ub = m.slice_elems(m.call(PT + 'UncompressedBytes', [v]))
+                    if ctx.branch(tm.eq(want, 0, WT)) if isinstance(want, tm.T) else (want == 0):
+                        ctx.check(len(ub) == 1 and tm.eq(ub[0], 0, 8), 'bv:result-encodes-as-the-identity')
+                    else:
+                        exp = [4] + T.be32(toy.X(want)) + T.be32(toy.Y(want))
+                        ctx.check(len(ub) == 65 and tm.eq(cat_bytes(ub), cat_bytes(exp), 520), 'bv:UncompressedBytes(result)=encoding-of-the-product')
+                return 'ok'
+            lbl = 'coord/F_43/%s[%s]' % (fn, variant['label'])
+            paths = sub.explore(lbl, h, mode='bv', timeout=600, max_paths=400)
+            sub.add(lbl + '/witness', [], any(p.outcome == 'ok' for p in paths))
+        return task
+    if not only or 'coord' in only:
+        lams = (1, 7, 12, 40)
+        for fn in ('ScalarMult', 'scalarMultVartimeGLV'):
+            # (a) every group element as P (identity included), short halves
+            for kP in range(31):
+                kinds = ('any', 'alias', 'fresh') if (chk.thorough or kP in (0, 1)) else (('any', 'alias', 'fresh')[kP % 3],)
+                for kind in kinds:
+                    for lP in (lams if chk.thorough else (lams[(kP + len(kind)) % 4],)):
+                        for half in (0, 1):
+                            for neg in (False, True):
+                                tasks.append(('coord', t_coord(fn, 'short', {
+                                    'label': 'P=%dG lam=%d, half %d = %snibble, other half 0, %s' % (kP, lP, half + 1, '-' if neg else '+', {'any': 'receiver any', 'alias': 'v=p', 'fresh': 'receiver fresh'}[kind]),
+                                    'kP': kP, 'lamP': lP, 'alias': kind == 'alias', 'prior': kind, 'half': half, 'negs': [neg and half == 0, neg and half == 1]})))
+            # (b) longer halves: symbolic nibbles in the last windows, concrete (seeded) nibbles above them
+            if chk.thorough:
+                grid = [(1, 1, ((0,), (1,)), 1), (5, 17, ((0, 1), ()), 2), (30, 3, ((), (0, 1)), 3), (0, 9, ((1,), (0,)), 4)]
+                grid += [(k, l, ((a,), (b,)), 10 + a) for (k, l, a, b) in ((7, 2, 0, 0), (12, 40, 2, 1), (19, 11, 1, 2), (23, 42, 2, 2), (2, 21, 1, 1))]
+                signsets = ((False, False), (True, False), (False, True), (True, True))
+            else:
+                # quick tier: one symbolic nibble per instance (two fully symbolic nibbles cost 30..50 s per obligation)
+                grid = [(1, 1, ((1,), ()), 1), (5, 17, ((), (2,)), 2), (30, 3, ((0,), ()), 3), (0, 9, ((), (1,)), 4)]
+                signsets = None
+            for kP, lP, sym, seed in grid:
+                for alias in (False, True):
+                    for negs in (signsets or ((False, False), (True, True) if alias else ((bool(sym[1]), bool(sym[0]))))):
+                        tasks.append(('coord', t_coord(fn, 'long', {'label': 'P=%dG lam=%d, sym nibbles %s|%s, signs %s%s, seed %d, %s' % (
+                            kP, lP, list(sym[0]), list(sym[1]), '-' if negs[0] else '+', '-' if negs[1] else '+', seed, 'v=p' if alias else 'receiver any'),
+                            'kP': kP, 'lamP': lP, 'sym': sym, 'alias': alias, 'prior': 'any', 'negs': list(negs)}, seed=seed + chk.seed)))
+        from . import toycoord as TC
+        chk.summaries.update(TC.SUMMARY)
+        chk.breach_fallback = dict(getattr(chk, 'breach_fallback', None) or {})
+        chk.breach_fallback.update({'ladder': 'the coordinate-level tasks coord/F_43/* (toy curve; every group element with one nibble per half, listed P with 1..2 symbolic nibbles per half)',
+                                    'table': 'the coordinate-level tasks coord/F_43/* (toy curve)'})
+        chk.bounds.append('coordinate level, toy curve y^2=x^3+7 over F_43 (order 31) with the toy image of the endomorphism: ScalarMult / scalarMultVartimeGLV executed end to end '
+                          '(real formulas, table builder, lookups, sign handling); (a) every group element as P (identity included; representation scale from {1,7,12,40}), halves +-w1, +-w2 with '
+                          'w1, w2 any nibble, receiver fresh / any valid point with arbitrary bookkeeping / aliasing P, result also through UncompressedBytes; (b) listed P, 128-bit '
+                          'magnitudes with 1..2 symbolic nibbles per half in the last three windows and the other nibbles concrete (seeded), all four sign combinations')
+        chk.outside.append('coordinate level: halves with more than 2 simultaneously symbolic nibbles or symbolic nibbles above the third window; representation scales other than the listed ones')
 
     return tasks
 
